@@ -495,9 +495,22 @@ def _check_property(prop, tier, seed, mine, scratch, findings, t0):
             rec['ce_search_error'] = repr(ex)
         if ce:
             rec.update(ce)
+        has_input = bool(ce and ce.get('inputs') is not None)
+        own = prop in (r.built.fns.get(e['fn'], {}).get('props') or [])
+        if not own and not has_input:
+            # The failing function is a *dependency* of this property (reached through the call graph, its contract does not state
+            # the property itself) and this property's own battery shows no behavioural difference: the property is no longer
+            # proved, but nothing shows it broken. Undecided, not an alarm; the property the function is tagged with reports it.
+            rec['verdict'] = 'undecided: dependency of %s fails its contract, no failing input for %s found' % (prop, prop)
+            with open(rp, 'w') as f:
+                json.dump(rec, f, indent=1)
+            nviol -= 1
+            undecided.append('%s/%s: dependency %s no longer meets its contract (%s); no failing input for %s found (see %s)' % (
+                r.unit['name'], r.variant, e['fn'], e['message'], prop, rp))
+            continue
         with open(rp, 'w') as f:
             json.dump(rec, f, indent=1)
-        if ce and ce.get('inputs') is not None:
+        if has_input:
             out_lines.append('VIOLATION property=%s replay=%s' % (prop, rp))
         else:
             out_lines.append('VIOLATION property=%s replay=%s no-failing-input-found' % (prop, rp))
